@@ -126,12 +126,16 @@ def excel_rows(source_path, sheet=1):
     location = errors.Location(source_path, has_cell=True)
     try:
         with xlrd.open_workbook(source_path) as book:
-            sheet = book.sheet_by_index(0)
+            if book.nsheets < sheet:
+                raise errors.DataFormatError(
+                    "Excel file must contain at least %d sheet(s) instead of just %d" % (sheet, book.nsheets), location
+                )
+            excel_sheet = book.sheet_by_index(sheet - 1)
             datemode = book.datemode
-            for y in range(sheet.nrows):
+            for y in range(excel_sheet.nrows):
                 row = []
-                for x in range(sheet.ncols):
-                    row.append(_excel_cell_value(sheet.cell(y, x), datemode))
+                for x in range(excel_sheet.ncols):
+                    row.append(_excel_cell_value(excel_sheet.cell(y, x), datemode))
                     location.advance_cell()
                 yield row
                 location.advance_line()
